@@ -150,6 +150,21 @@ class LT(object):
             r = r * self
         return r
 
+    def transpose(self, d0, d1):
+        n = len(self._shape)
+        a, b = d0 % n, d1 % n
+        if a == b:
+            return self
+        f = self.fn
+        shp = list(self._shape)
+        shp[a], shp[b] = shp[b], shp[a]
+
+        def g(ix):
+            ix = list(ix)
+            ix[a], ix[b] = ix[b], ix[a]
+            return f(tuple(ix))
+        return LT(tuple(shp), g, self.kind)
+
     def unsqueeze(self, dim):
         f, n = self.fn, len(self._shape)
         d = dim if dim >= 0 else dim + n + 1
@@ -1012,6 +1027,7 @@ class Undecided(OutOfSubset):
 
 
 _INT_ONLY = {}
+POSARG = {}      # name of an uninterpreted function -> which argument is the position along the sample axis (default 0)
 
 
 def _int_only(t):
@@ -1101,8 +1117,9 @@ def canonize(term, funcs, points, hyps):
             nm = t.decl().name()
             if nm in funcs and t.decl().eq(funcs[nm]):
                 ch = t.children()
-                label = point_of(ch[0])
-                rest = "".join("_%s" % z3.simplify(x) for x in ch[1:])
+                pa = POSARG.get(nm, 0)
+                label = point_of(ch[pa])
+                rest = "".join("_%s" % z3.simplify(x) for k_, x in enumerate(ch) if k_ != pa)
                 r = z3.Real("%s@%s%s" % (nm, label, rest))
             else:
                 ch = [go(x) for x in t.children()]
